@@ -685,6 +685,20 @@ class NetworkXPropertyGraph(ABCPropertyGraph, NetworkXMixin):
         # remember that graphid is ignored in get_graph in this implementation, but respected
         # in the disjoint implementation
 
+        # construct a new set of properties before anything is changed: identity properties always stay
+        # those of the kept node, a policy only applies to a property both nodes have
+        new_props = dict(node_props)
+        if merge_properties is not None:
+            for k, how in merge_properties.items():
+                if how not in ('discard', 'overwrite', 'combine'):
+                    raise PropertyGraphQueryException(graph_id=self.graph_id, node_id=node_id,
+                                                      msg=f"Unknown merge policy {how} for property {k}")
+                if k in (ABCPropertyGraph.GRAPH_ID, ABCPropertyGraph.NODE_ID, ABCPropertyGraph.PROP_CLASS) or \
+                        k not in node_props or k not in other_props:
+                    continue
+                new_props[k] = node_props[k] if how == 'discard' else \
+                    other_props[k] if how == 'overwrite' else [node_props[k], other_props[k]]
+
         # merge the nodes in situ
         nx.contracted_nodes(self.storage.get_graph(self.graph_id), real_node, real_other_node, copy=False)
         # for relationships the two nodes had in common contracted_nodes records the other node's
@@ -696,18 +710,6 @@ class NetworkXPropertyGraph(ABCPropertyGraph, NetworkXMixin):
         # remove all properties, including 'contracted' new property
         self.storage.get_graph(self.graph_id).nodes[real_node].clear()
 
-        # construct a new set of properties
-        new_props = dict()
-        if merge_properties is None:
-            new_props = node_props
-        else:
-            for k, v in node_props.items():
-                if k in merge_properties:
-                    new_props[k] = node_props[k] if merge_properties[k] == 'discard' else \
-                        other_props[k] if merge_properties[k] == 'overwrite' else \
-                            [node_props[k], other_props[k]] if merge_properties[k] == 'combine' else None
-                else:
-                    new_props[k] = node_props[k]
         self.storage.get_graph(self.graph_id).nodes[real_node].update(new_props)
 
     def get_stitch_nodes(self) -> List[str]:
